@@ -146,18 +146,41 @@ where
         }
         let ast = ast_validation.ast();
         // Check that StorageT is big enough to hold RIdx/PIdx/SIdx/TIdx values; after these
-        // checks we can guarantee that things like RIdx(ast.rules.len().as_()) are safe.
-        if ast.rules.len() > num_traits::cast(StorageT::max_value()).unwrap() {
+        // checks we can guarantee that things like RIdx(ast.rules.len().as_()) are safe. Note that
+        // the checks must be made against the sizes the grammar will *end up* with: below we add
+        // the start rule `^` and its production, the EOF token and, for Eco grammars with implicit
+        // tokens, the rules `~` and `^~`, their productions, and a reference to `~` after every
+        // token in every production.
+        let max_storaget: usize = num_traits::cast(StorageT::max_value()).unwrap();
+        let implicit_tokens_len = match ast_validation.yacc_kind() {
+            YaccKind::Original(_) | YaccKind::Grmtools => None,
+            YaccKind::Eco => ast.implicit_tokens.as_ref().map(|x| x.len()),
+        };
+        let (added_rules, added_prods) = match implicit_tokens_len {
+            // ^: S;
+            None => (1, 1),
+            // ^: ^~; ^~: ~ S; ~: "IMPLICIT_TOKEN_1" ~ | ... | "IMPLICIT_TOKEN_N" ~ | ;
+            Some(n) => (3, 3 + n),
+        };
+        if ast.rules.len() + added_rules > max_storaget {
             panic!("StorageT is not big enough to store this grammar's rules.");
         }
-        if ast.tokens.len() > num_traits::cast(StorageT::max_value()).unwrap() {
+        if ast.tokens.len() + 1 > max_storaget {
             panic!("StorageT is not big enough to store this grammar's tokens.");
         }
-        if ast.prods.len() > num_traits::cast(StorageT::max_value()).unwrap() {
+        if ast.prods.len() + added_prods > max_storaget {
             panic!("StorageT is not big enough to store this grammar's productions.");
         }
         for p in &ast.prods {
-            if p.symbols.len() > num_traits::cast(StorageT::max_value()).unwrap() {
+            let added_syms = match implicit_tokens_len {
+                None => 0,
+                Some(_) => p
+                    .symbols
+                    .iter()
+                    .filter(|x| matches!(x, ast::Symbol::Token(..)))
+                    .count(),
+            };
+            if p.symbols.len() + added_syms > max_storaget {
                 panic!(
                     "StorageT is not big enough to store the symbols of at least one of this grammar's productions."
                 );
